@@ -303,8 +303,23 @@ def all_jobs():
     mg = '_ZN4bloc7Context13storeVariableEjONS_5ValueE'
     J.append(dict(id='ctx_storeVariable', src='blocc/context.cpp', contract='ctx_store.c', enforce=mg, roots=[mg], replace=['_ZN4bloc5Value4swapEOS0_', V_CLEAR],
                   cut=['_ZN4bloc5Value4swapEOS0_', V_CLONE, V_CLEAR, RTE_CTOR, RTE_CTOR_S, '_ZNK4bloc5Value8typeNameB5cxx11Ev'], defines=['ENFORCING_VALUE_CLONE'],
-                  props=['C01', 'C05', 'C08'], pretty='bloc::Context::storeVariable', canaries=['normal', 'exceptional'],
+                  props=['C01', 'C02', 'C05', 'C08'], pretty='bloc::Context::storeVariable', canaries=['normal', 'exceptional'],
                   structs=DEFAULT_STRUCTS + [STD_STRING, 'bloc::Context', 'bloc::Symbol', 'bloc::Context::MemorySlot', 'bloc::Collection', 'bloc::Tuple']))
+    for jid, mg, df in (('symbol_check_safety', '_ZNK4bloc6Symbol12check_safetyERKNS_4TypeE', 'JOB_CHECK'), ('symbol_upgrade', '_ZN4bloc6Symbol7upgradeERKNS_4TypeE', 'JOB_UPGRADE')):
+        J.append(dict(id=jid, src='blocc/symbol.cpp', contract='symbol.c', enforce=mg, roots=[mg], replace=[], cut=[], defines=[df],
+                      props=['C01', 'C02'], pretty='bloc::Symbol::' + ('check_safety' if df == 'JOB_CHECK' else 'upgrade(const Type&)'), canaries=['normal'], enums=[],
+                      structs=[STD_STRING, 'bloc::Type', 'bloc::Symbol']))
+    mg = '_ZNK4bloc18VariableExpression4typeERNS_7ContextE'
+    J.append(dict(id='var_type', src='blocc/expression_variable.cpp', contract='var_type.c', enforce=mg, roots=[mg], replace=[], cut=['_ZN4bloc7Context9getSymbolEj', RTE_CTOR, RTE_CTOR_S],
+                  props=['C01', 'C02'], pretty='bloc::VariableExpression::type', canaries=['normal'], unwind=3, unwind_why='Value::deref_value() pointer chase (complete: an iterator points to an element, never to a pointer)',
+                  structs=DEFAULT_STRUCTS + [STD_STRING, 'bloc::Context', 'bloc::Symbol', 'bloc::Context::MemorySlot', 'bloc::VariableExpression']))
+    mg = '_ZN4bloc7Context14registerSymbolERKNSt7__cxx1112basic_stringIcSt11char_traitsIcESaIcEEERKNS_4TypeE'
+    J.append(dict(id='ctx_registerSymbol', src='blocc/context.cpp', contract='ctx_register.c', enforce=mg, roots=[mg], replace=[],
+                  cut=['_ZN4bloc7Context10findSymbolERKNSt7__cxx1112basic_stringIcSt11char_traitsIcESaIcEEE', '_ZNK4bloc6Symbol12check_safetyERKNS_4TypeE', '_ZN4bloc6Symbol7upgradeERKNS_4TypeE',
+                       '_ZN4bloc6SymbolC1EjRKNSt7__cxx1112basic_stringIcSt11char_traitsIcESaIcEEERKNS_4TypeE', '_ZN4bloc6SymbolC2EjRKNSt7__cxx1112basic_stringIcSt11char_traitsIcESaIcEEERKNS_4TypeE',
+                       '_ZN4bloc7Context10MemorySlotC1EONS_6SymbolE', '_ZN4bloc7Context10MemorySlotC2EONS_6SymbolE', '_ZN4bloc7Context10MemorySlotD1Ev', '_ZN4bloc7Context10MemorySlotD2Ev', '_ZN4bloc6SymbolD1Ev', '_ZN4bloc6SymbolD2Ev'],
+                  props=['C01', 'C02', 'C11'], pretty='bloc::Context::registerSymbol(name, type)', canaries=['normal', 'exceptional'],
+                  structs=DEFAULT_STRUCTS + [STD_STRING, 'bloc::Context', 'bloc::Symbol', 'bloc::Context::MemorySlot', 'bloc::ParseError']))
     mg = '_ZN4bloc7Context5purgeEv'
     PURGE_CUT = [V_CLEAR, '_ZN4bloc14FunctorManagerC1ERNS_7ContextE', '_ZN4bloc14FunctorManagerD1Ev', '_ZN4bloc14FunctorManagerC2ERNS_7ContextE', '_ZN4bloc14FunctorManagerD2Ev', '_ZN4bloc7Context4Pool5purgeEv']
     J.append(dict(id='ctx_purge', src='blocc/context.cpp', contract='ctx_purge.c', enforce=mg, roots=[mg], replace=[], cut=PURGE_CUT,
@@ -340,6 +355,13 @@ def all_jobs():
                       **({'bounded_inputs': True, 'thorough': dict(unwind=uw + 6, unwind_why=uw_why.replace('at most 2', 'at most 4') + ' (thorough tier)',
                                                                      defines=['BUILTIN_FN=' + mg, 'BUILTIN_CLASS=' + cls, 'BUILTIN_NARGS=%d' % nargs, 'BUILTIN_STR_MAX=%d' % (strmax + 2)] + (['BUILTIN_TYPE=' + ftype] if ftype else []))} if strmax else {}),
                       structs=DEFAULT_STRUCTS + [STD_STRING, VEC_CHAR, 'bloc::Imaginary', 'std::complex<double>', 'bloc::Context', 'bloc::' + cls]))
+        if ftype or follows:
+            # the static half: type() of the same node
+            tmg = '_ZNK4bloc%d%s4typeERNS_7ContextE' % (len(cls), cls)
+            J.append(dict(id='bt_' + name, src='blocc/builtin/builtin_%s.cpp' % name, contract='builtin_type_generic.c', enforce=tmg, roots=[tmg], replace=['VCALL_Expression_type'],
+                          cut=['VCALL_Expression_type', RTE_CTOR, RTE_CTOR_S], props=['C01', 'C02'], pretty='bloc::%s::type' % cls, canaries=['normal'],
+                          defines=['BUILTIN_TYPE_FN=' + tmg, 'BUILTIN_CLASS=' + cls] + (['BUILTIN_TYPE=' + ftype] if ftype else ['BUILTIN_TYPE_FOLLOWS_COMPLEX']),
+                          structs=DEFAULT_STRUCTS + [STD_STRING, VEC_CHAR, 'bloc::Context', 'bloc::' + cls]))
     return J
 
 # builtins under the generic contract (name, class, number of arguments); see tools/try_builtins.sh for how the list was grown
